@@ -16,11 +16,11 @@ import time
 from harness import common, gen_motion, gen_plugin, modelrun, record
 
 
-def fresh_history(used_trace, hist, probe):
+def fresh_history(used_trace, hist, probe, extra_steps=()):
     """History that brings a fresh plugin to the same regions and settings, then probes."""
     steps = []
     last = {}
-    for step in hist.steps:
+    for step in list(hist.steps) + list(extra_steps):
         if step[0] == "set":
             last[step[1]] = step
     steps.extend(last.values())
@@ -50,9 +50,35 @@ DIRT = [
 ]
 
 
-def dirty_print(rng):
+def sync_settings(steps):
+    """
+    "Same settings" means the stored settings are the applied ones.  A SettingsUpdated event is
+    only inserted when a stored value has not been applied yet: an unconditional one would
+    rebuild the configuration objects and hide state that leaked into them.
+    """
+    pending = False
+    for step in steps:
+        if step[0] == "set":
+            pending = True
+        elif step[0] == "pev" and step[1] == "SettingsUpdated":
+            pending = False
+    return [("pev", "SettingsUpdated")] if pending else []
+
+
+def dirty_print(rng, regions=None):
     """A print that is abandoned in a state that leaves something behind (C10's quantifier)."""
+    from harness.gen_motion import fmt_mm, region_bbox
     steps = [("pev", "PrintStarted"), ("g", "G28", {}), ("g", "G1 X5 Y5 Z0.3 F3000", {})]
+    if regions and rng.random() < 0.6:
+        # work inside a region of the registry: enter it (possibly with a retracting move),
+        # leave things pending there
+        box = region_bbox(rng.choice(regions))
+        cx, cy = fmt_mm((box[0] + box[2]) // 2), fmt_mm((box[1] + box[3]) // 2)
+        steps.append(("g", "G1 X1 Y1 E3 F1500", {}))
+        steps.append(("g", rng.choice(["G1 X%s Y%s E2 F1800", "G1 X%s Y%s", "G1 X%s Y%s E3.5"])
+                      % (cx, cy), {}))
+        steps.extend(rng.choice([[], [("g", "M204 P700", {})], [("g", "G1 E3", {})],
+                                 [("g", "G1 X2 Y2", {})]]))
     for _ in range(rng.randint(0, 3)):
         steps.extend(rng.choice(DIRT))
     if rng.random() < 0.5:
@@ -88,12 +114,18 @@ def run(tier, seed):
         # both plugins receive identical input
         gen.useArcs = False
         probe = gen.build().steps
-        dirt = dirty_print(rng)
+        dirt = dirty_print(rng, getattr(hist, "regions_view", []))
+        if rng.random() < 0.5:
+            # scripts configured for the whole history (applied by the SettingsUpdated event that
+            # precedes print-started in both runs)
+            dirt = [("set", "enteringExcludedRegionGcode", "M117 ENTER", ["M117 ENTER"]),
+                    ("set", "exitingExcludedRegionGcode", "M117 EXIT", ["M117 EXIT"]),
+                    ("pev", "SettingsUpdated")] + dirt
         dirts.append(dirt)
-        used.steps = list(hist.steps) + dirt + \
-            [("pev", "SettingsUpdated"), ("pev", "PrintStarted")] + list(probe)
+        used.steps = list(hist.steps) + dirt + sync_settings(list(hist.steps) + dirt) + \
+            [("pev", "PrintStarted")] + list(probe)
         utrace = record.run_plugin_history(used, index + 1)
-        ftrace = record.run_plugin_history(fresh_history(utrace, hist, probe), index + 1,
+        ftrace = record.run_plugin_history(fresh_history(utrace, hist, probe, dirt), index + 1,
                                            keep_state=False)
         used_traces.append(utrace)
         events = []
@@ -166,10 +198,13 @@ def replay(payload):
     hist.steps = [tuple(s) for s in hj["steps"]]
     probe = [tuple(s) for s in payload["probe"]]
     used = gen_plugin.History(hist.seed, hist.g90e)
-    used.steps = list(hist.steps) + [tuple(s) for s in payload.get("dirt", [])] + \
-        [("pev", "SettingsUpdated"), ("pev", "PrintStarted")] + probe
+    dirt = [tuple(s) for s in payload.get("dirt", [])]
+    used.steps = list(hist.steps) + dirt + sync_settings(list(hist.steps) + dirt) + \
+        [("pev", "PrintStarted")] + probe
     utrace = record.run_plugin_history(used, 1)
-    ftrace = record.run_plugin_history(fresh_history(utrace, hist, probe), 1, keep_state=False)
+    ftrace = record.run_plugin_history(
+        fresh_history(utrace, hist, probe, [tuple(s) for s in payload.get("dirt", [])]), 1,
+        keep_state=False)
     events = [{"txt": "", "a": {"res": a["res"], "out": [o["txt"] for o in a["out"]]},
                "b": {"res": b["res"], "out": [o["txt"] for o in b["out"]]}}
               for a, b in zip(utrace["ev"][-len(probe):], ftrace["ev"][-len(probe):])]
